@@ -32,6 +32,18 @@ def step (d : Dir) (line : String) : Dir × String :=
   | ["newdir", m, a, b] => match bv m, parseTime a b with
     | some m, some t => let d' := newDir .block m t; (d', answer "ok" d')
     | _, _ => (d, "bad-op")
+  | ["newdirm", e, m, a, b] =>
+    match (match e with | "L" => some EstMode.links | "B" => some .block | "D" => some .disabled | _ => none),
+      bv m, parseTime a b with
+    | some e, some m, some t => let d' := newDir e m t; (d', answer "ok" d')
+    | _, _, _ => (d, "bad-op")
+  | ["setest", e] =>
+    match (match e with | "L" => some EstMode.links | "B" => some .block | "D" => some .disabled | _ => none) with
+    | some e => let d' := setEstMode d e; (d', answer "ok" d')
+    | none => (d, "bad-op")
+  | ["setmaxlinks", n] => match n.toInt? with
+    | some n => let d' := setMaxLinks d n; (d', answer "ok" d')
+    | none => (d, "bad-op")
   | ["add", n, c, t] => match unhex n, unhex c, t.toNat? with
     | some n, some c, some t => let r := addChild d n c t; (r.1, answer (if r.2 then "ok" else "err") r.1)
     | _, _, _ => (d, "bad-op")
